@@ -9,3 +9,15 @@ Definition nh_today : nh_data := match nh_today_opt with Some d => d | None => n
 
 Definition nh_today_source_as_modelled : bool :=
   nh_source_as_modelled nh_range_guard nh_range_from nh_range_to nh_port_reject.
+
+(* server/proxy/xtcp.go as modelled by EvListen / EvProxyClose / EvLoopExit (Model/NatHoleCtl.v): XTCPProxy.Close calls
+   CloseClient itself (a plain call: not in a goroutine, not deferred) and closes closeCh; Run registers with ListenClient
+   before it starts its goroutine; that goroutine never calls into the controller (in particular it does not own the
+   registration). *)
+Definition nh_str_in (x : string) (l : list string) : bool := existsb (String.eqb x) l.
+Definition nh_xtcp_registration_as_modelled (close run loop : list string) : bool :=
+  nh_str_in "call:controller.CloseClient" close && nh_str_in "call:close:closeCh" close &&
+  nh_str_in "assign-call:controller.ListenClient" run && nh_str_in "go" run &&
+  match loop with [] => true | _ => false end.
+Definition nh_today_xtcp_registration_sync : bool :=
+  nh_xtcp_registration_as_modelled nh_xtcp_close nh_xtcp_run nh_xtcp_loop_calls.
